@@ -124,12 +124,12 @@ theorem incdec_exec (cs : Bool) {t : CSem.Ty} (htb : t ≠ .bool) (inc : Bool) {
       exact ⟨r', hx', storeVal_of_rep hr'⟩
 
 section
-variable (T : Stat) {s : Store} {out : CSem2.Outcome} {lp : Bool} {brk cont : String} {c : SCtx}
+variable (T : Stat) {s : Store} {out : CSem2.Outcome} {lp : Bool × Bool} {brk cont : String} {c : SCtx}
   {nd nd' : Nat} {pre post : List Item} {env : Env} {M : Mem}
 
 theorem sim_incdec_nb (n : Nat) (i : Nat) (t : CSem.Ty) (inc : Bool) (htb : t ≠ .bool)
     (hex : exec T.S.cs (n + 1) s (.incdec i t inc) = some out)
-    (hwt : Stmt.wt T.vtys T.ret lp nd (.incdec i t inc) = some nd') (hp : Pos T c nd pre)
+    (hwt : Stmt.wt T.vtys T.ret lp.1 lp.2 nd (.incdec i t inc) = some nd') (hp : Pos T c nd pre)
     (hext : Ext T (funcstmt T.S.cs brk cont (.incdec i t inc) c).ctx)
     (hits : T.S.its = pre ++ (funcstmt T.S.cs brk cont (.incdec i t inc) c).items ++ post)
     (inv : SInv T.S.cs T.σ T.vtys s env M) :
@@ -233,14 +233,14 @@ theorem AInv.load_bool (cs : Bool) {σ : List Nat} {vtys : List CSem.Ty} {s : St
     omega
 
 section
-variable (T : Stat) {s : Store} {out : CSem2.Outcome} {lp : Bool} {brk cont : String} {c : SCtx}
+variable (T : Stat) {s : Store} {out : CSem2.Outcome} {lp : Bool × Bool} {brk cont : String} {c : SCtx}
   {nd nd' : Nat} {pre post : List Item} {env : Env} {M : Mem}
 
 /-- `++`/`--` on a `_Bool` object: `loadub`, `add`/`sub`, `cnew … 0` (`convert(f, &typebool, &typeint, v)`),
     `storeb` -/
 theorem sim_incdec_bool (n : Nat) (i : Nat) (inc : Bool)
     (hex : exec T.S.cs (n + 1) s (.incdec i .bool inc) = some out)
-    (hwt : Stmt.wt T.vtys T.ret lp nd (.incdec i .bool inc) = some nd') (hp : Pos T c nd pre)
+    (hwt : Stmt.wt T.vtys T.ret lp.1 lp.2 nd (.incdec i .bool inc) = some nd') (hp : Pos T c nd pre)
     (hext : Ext T (funcstmt T.S.cs brk cont (.incdec i .bool inc) c).ctx)
     (hits : T.S.its = pre ++ (funcstmt T.S.cs brk cont (.incdec i .bool inc) c).items ++ post)
     (inv : SInv T.S.cs T.σ T.vtys s env M) :
@@ -363,7 +363,7 @@ theorem sim_incdec_bool (n : Nat) (i : Nat) (inc : Bool)
 
 theorem sim_incdec (n : Nat) (i : Nat) (t : CSem.Ty) (inc : Bool)
     (hex : exec T.S.cs (n + 1) s (.incdec i t inc) = some out)
-    (hwt : Stmt.wt T.vtys T.ret lp nd (.incdec i t inc) = some nd') (hp : Pos T c nd pre)
+    (hwt : Stmt.wt T.vtys T.ret lp.1 lp.2 nd (.incdec i t inc) = some nd') (hp : Pos T c nd pre)
     (hext : Ext T (funcstmt T.S.cs brk cont (.incdec i t inc) c).ctx)
     (hits : T.S.its = pre ++ (funcstmt T.S.cs brk cont (.incdec i t inc) c).items ++ post)
     (inv : SInv T.S.cs T.σ T.vtys s env M) :
